@@ -107,12 +107,23 @@ def run(ctx):
     parts = []
 
     # 1. sequential correspondence: guardiansets + processor (real Push / verifyVAA / Deduplicator / GuardianSets)
-    rc, out = ctx.go_test("explorer-backend", "./guardiansets", "^TestVerif(Gs|Push)$", ov, extra=("./processor",),
+    # (TestVerifGsHist comes first in the file: the histories it writes - start-up, far-ahead, overtaken lookups, reordered answers -
+    # are complete and flushed before TestVerifGs starts the real ticker goroutine, whose panics nobody can recover)
+    rc, out = ctx.go_test("explorer-backend", "./guardiansets", "^TestVerif(GsHist|Gs|Push)$", ov, extra=("./processor",),
                          timeout=240 if ctx.tier == "quick" else 1500)
-    for name in ("explorer_gs.cases", "explorer_push.cases"):
+    for name in ("explorer_hist.cases", "explorer_gs.cases", "explorer_push.cases"):
         p = os.path.join(ctx.work, name)
         if rc != 0 or not os.path.exists(p):
             ctx.broken.append(("tie", "go-harness:" + name, out[-800:]))
+            # the harness died (a panic in a goroutine of the code under test ends the test binary): what the history test had
+            # written by then is still judged, so that the run names a failing input and not only the broken tie
+            hist = os.path.join(ctx.work, "explorer_hist.cases")
+            if os.path.exists(hist) and os.path.getsize(hist) > 0:
+                txt = open(hist).read()
+                txt = txt[:txt.rfind("\n") + 1]
+                open(cases, "w").write(txt)
+                ctx.judge("explorer", cases)
+                ctx.cov["evaluations"] += txt.count("\n")
             return
         parts.append(p)
 
@@ -157,6 +168,14 @@ def run(ctx):
     ctx.cov["race_reports"] = len(races)
     ctx.cov["node_module_linked_by_explorer"] = node_module_version(ctx)
     ctx.cov["rule"] = (
+        "guardiansets histories (everything through the real entry points, every index looked up after every step): start-up as main.go does it "
+        "(GetGuardianSetsFromChain(0) -> NewGuardianSets) over 2-6 sets and a catch-up of 2-4 sets in one fetch (ticker's body / lookup of the newest "
+        "index / both), twice behind a gate of the fake node that holds the requests and answers simultaneous ones highest index first (a client "
+        "asking for one set after the other only ever has one request held: two grace periods of 150 ms per probe, never gated again); a chain "
+        "8, 9, 10, 16, 17, 33 and a random 9-36 sets ahead of an explorer that knows 1-3 sets - one far-ahead lookup, then every index of the chain; "
+        "lookups of index current+2..4 whose first chain request is held at the gate while a lookup of a lower / the same / a higher new index, "
+        "the ticker's body, two lookups, a lookup and the ticker's body, or a failing lookup run to completion (overlapping, repeated, contained "
+        "batches: driver form getGuardianSetStale with the `current` read earlier). "
         "guardiansets: op sequences on the real GuardianSets against a fake JSON-RPC chain - 'realistic' sequences (NewGuardianSets on a "
         "chain prefix, then contiguous updates starting <= current+1, lookups of old/current/future/non-existent indexes with RPC and dial "
         "failures, GetGuardianSetsFromChain, one round of the real ticker goroutine) on which the Spec is evaluated, and 'adversarial' "
@@ -172,7 +191,11 @@ def run(ctx):
         "outsider, quorum of another set, body altered, duplicate signer, swapped, re-indexed, out-of-range index, bad recovery id, too many, "
         "set unknown to the chain, surplus bad signatures, repeats of earlier message ids and forged copies of them - with the queue full / one slot left / empty and the dedup cache "
         "honest, erroring, forgetting or answering arbitrarily; verifyVAA directly (through reflection, only while its signature is unchanged) incl. "
-        "nil / empty / short address lists; CalculateQuorum(0..255). The Spec 'queued => signed, quorum of the NAMED set, Valid signatures' is "
+        "nil / empty / short address lists; CalculateQuorum(0..255); histories (also part of the gate cases C06 / C07 judge): 6 worlds (strictly growing / "
+        "strictly shrinking size ladders, 1-key bootstrap sets followed by 19-key sets) in which a Push naming set current+2..3 is held at the fake "
+        "node's gate while Pushes naming a lower / the same / a higher new set (or two, or a cross-signed one) complete, and a chain 9-12 sets ahead "
+        "(growing and shrinking ladder); after each, for every known set an exact-quorum VAA of its own guardians and VAAs naming it that carry "
+        "exactly a quorum of each OTHER known set's guardians under their own indexes (any displacement of a set within the list lets one through). The Spec 'queued => signed, quorum of the NAMED set, Valid signatures' is "
         "evaluated on what appeared on the queue, independently of the model. "
         "concurrency: 4 reader goroutines (GetGuardianSet of published, published-1, published+1; GetCurrentGuardianSet) against 2 "
         "updateGuardianSets writers, every result checked, under -race. distinct_nontrivial = lines on which model and implementation "
